@@ -198,6 +198,10 @@ func generateRegexMatch(w io.Writer, lexerName, name, pattern string) error {
 		fmt.Fprintf(w, "}\n")
 		return nil
 	}
+	// Like the runtime lexer, ^, $, \b and \B treat the remaining input as a text of its own:
+	// nothing before the start of the token is visible to them.
+	fmt.Fprintf(w, "start := p\n")
+	fmt.Fprintf(w, "_ = start\n")
 	for _, re := range flattened {
 		if exists(re) {
 			continue
@@ -314,14 +318,14 @@ func generateRegexMatch(w io.Writer, lexerName, name, pattern string) error {
 			syntax.OpBeginText, syntax.OpEndText,
 			syntax.OpBeginLine, syntax.OpEndLine:
 			fmt.Fprintf(w, "var l, u rune = -1, -1\n")
-			fmt.Fprintf(w, "if p == 0 {\n")
+			fmt.Fprintf(w, "if p == start {\n")
 			fmt.Fprintf(w, "  if p < len(s) {\n")
-			decodeRune(w, "0", "u", "_")
+			decodeRune(w, "p", "u", "_")
 			fmt.Fprintf(w, "  }\n")
 			fmt.Fprintf(w, "} else if p == len(s) {\n")
-			fmt.Fprintf(w, "  l, _ = utf8.DecodeLastRuneInString(s)\n")
+			fmt.Fprintf(w, "  l, _ = utf8.DecodeLastRuneInString(s[start:])\n")
 			fmt.Fprintf(w, "} else {\n")
-			fmt.Fprintf(w, "  l, _ = utf8.DecodeLastRuneInString(s[0:p])\n")
+			fmt.Fprintf(w, "  l, _ = utf8.DecodeLastRuneInString(s[start:p])\n")
 			decodeRune(w, "p", "u", "_")
 			fmt.Fprintf(w, "}\n")
 			fmt.Fprintf(w, "op := syntax.EmptyOpContext(l, u)\n")
